@@ -177,6 +177,15 @@ def handle (x : Sexp) : Sexp :=
   | .list [.atom "graph", n, c] => match n.asNat, decChain (fun p => p.asStr) c with
     | some n, some c => let (g, n') := viewerGraph id c n; ok (.list [encGraph g, nat n'])
     | _, _ => bad "graph"
+  | .list [.atom "graph_labels", n, tbl, c] =>
+    match n.asNat, tbl.asList.bind (·.mapM fun p => match p with
+        | .list [.atom k, .atom v] => some (k, v) | _ => none), decChain (fun p => p.asStr) c with
+    | some n, some tbl, some c =>
+      let (g, _) := viewerGraph id c n
+      let safe := safeHtml tbl
+      ok (.list (.atom (String.ofList (rootLabel safe g.root)) ::
+                 g.nodes.map fun nd => .atom (String.ofList (nd.label safe))))
+    | _, _, _ => bad "graph_labels"
   -- L3
   | .list [.atom "conj", .atom n] => ok (.atom (Gen.db.conjName n))
   | .list [.atom "conj_pdg", .atom n] => ok (.atom (Gen.db.conjPdg n))
